@@ -382,6 +382,28 @@ STRICT_EXEMPT = {
 }
 
 
+def r5b_late_dependency(cx):
+    """Single-pass evaluation orders by the group graph COMPONENTS[group], the incremental drivers rebuild their sub-graphs from DEPENDENCIES /
+    DEPENDENTS: a dependency attached after registration must reach all of them or the drivers disagree."""
+    cx.rule("C04.R5", "single-pass, incremental and pooled drivers evaluate each sub-graph through dr.run with its own broker", floor=5)
+    m = cx.repo.module(DR)
+    fn = m.func("ComponentType.add_dependency", "C04.R5")
+    dep = params(fn)[1]
+    adds = [x for x in find_calls(fn.body, attr="add") if [U(a) for a in x.args] == [dep] and not guard_texts(x)]
+    recv = [U(x.func.value) for x in adds]
+
+    def _res(t):
+        # COMPONENTS[group][...] with group = self.group
+        for a in assigns_to(fn, "group"):
+            t = t.replace("[group]", "[%s]" % U(a.value))
+        return t
+    recv = [_res(t) for t in recv]
+    dependents = [x for x in find_calls(fn.body, name="add_dependent") if [U(a) for a in x.args] == [dep, "self.component"] and not guard_texts(x)]
+    ok = ("self.dependencies" in recv or "DEPENDENCIES[self.component]" in recv) and "COMPONENTS[self.group][self.component]" in recv and len(dependents) == 1
+    cx.require(ok, fn, "a dependency attached after registration is recorded in the component's dependency set, in the dependents table and in the group graph (all three feed a driver)",
+               construct="adds to %s; add_dependent calls: %d" % (sorted(recv), len(dependents)))
+
+
 def r6_set_iteration(cx, kinds, mods):
     cx.rule("C04.R6", "no hash-ordered iteration feeds an ordered result in the order-critical core", floor=10)
     comm = ("add_dependent", "add_ignore", "add_exception", "add_observer", "set_enabled")
@@ -452,4 +474,5 @@ def run(cx):
     cx.guard(r3_ordered_picks, kinds)
     cx.guard(r4_subgraphs)
     cx.guard(r5_sibling_drivers)
+    cx.guard(r5b_late_dependency)
     cx.guard(r6_set_iteration, kinds, mods)
